@@ -69,3 +69,29 @@ pub fn report_panics(cfg: &Cfg) {
         }
     }
 }
+
+/// Safety net: a library panic killed a daemon thread while the harness main thread waits for it
+/// (parked in recvmsg / futex) and nothing moves any more. The panic is reported the usual way and
+/// the shard ends instead of hanging until the driver's watchdog.
+pub fn install_stall_watchdog(cfg: &Cfg) {
+    let cfg = cfg.clone();
+    let main_tid = common::sys::gettid();
+    let _ = std::thread::Builder::new().name("hd-stall-watch".into()).spawn(move || {
+        let mut streak = 0;
+        loop {
+            std::thread::sleep(std::time::Duration::from_millis(200));
+            let lib_panic = peek_panics().iter().any(|p| !is_harness_location(&p.location));
+            let parked = common::sys::parked_in(main_tid, &[common::sys::SYS_RECVMSG, common::sys::SYS_FUTEX]);
+            if lib_panic && parked {
+                streak += 1;
+            } else {
+                streak = 0;
+            }
+            if streak >= 15 {
+                report::inconclusive("harness main thread stalled after a library panic (see the panic violation)");
+                report_panics(&cfg);
+                std::process::exit(report::finish());
+            }
+        }
+    });
+}
